@@ -262,6 +262,8 @@ def run(ctx, ck):
         skp = [t_ for k_, t_ in p_.conds if k_ == 'loop-skipped']
         n_ = sum(1 for ev in p_.events if ev[0] == 'store' and ev[1].startswith('self.Z['))
         inner_entered = len(ent) >= 2 or any('_each' in t_ for t_ in ent)
+        if any('_each(' in t_ for t_ in skp) and ent:
+            continue        # a generated sequence both produced (its loops entered) and empty: not a real path
         if inner_entered:
             counts.add(n_)
     ck.ob('R-EXH.diagonal', LOADS + '|one-add-per-pulse', counts == {1}, f.loc(),
@@ -301,7 +303,7 @@ def run(ctx, ck):
           'denominator a and numerator b stored zero-padded')
     from ..symx import SymExec, loop_transformer, copy_replace
     from ..poly import poly_roles, roles_of_text, cancel
-    imp = m.func('mininec.Laplace_Load.impedance')
+    imp = ctx.flat('mininec.Laplace_Load.impedance')       # (the evaluation loop may live in a private helper)
     # the evaluation loop as a state transformer: N' = N + b[j]*M, D' = D + a[j]*M, M' = M*s with
     # N = D = 0, M = 1 initially and s = j*2*pi*f*1e6; the result is N / D   (Horner-free power sum)
     ok, why = False, 'unexpected shape'
@@ -578,19 +580,27 @@ def run(ctx, ck):
           'equivalent radius b * (a / b) ** (1 / eps_r) with insulation, a otherwise: %s' % forms)
 
     # ---------------------------------------------------------------- D5
-    rl = m.func('mininec.Mininec.register_load')
-    rfl2 = ctx.flow(rl)
+    # attach to a whole object / to everything: on the symbolic paths of register_load (helpers, chained
+    # generators looked through) add_pulse is reached once per pulse of <object>.pulse_iter() - ends included
+    from ._addressing import paths_of, cond_value
+    rl, rpaths = paths_of(ctx, 'mininec.Mininec.register_load')
     n_loops = 0
-    for l in loops_in(rl.node):
-        if isinstance(l, ast.For) and isinstance(l.iter, ast.Call) and \
-           isinstance(l.iter.func, ast.Attribute) and l.iter.func.attr == 'pulse_iter':
-            mn, mx = loop_reaches_on_all_paths(rfl2, l, lambda n: n.stmt is not None and n.kind == 'stmt'
-                                               and any(isinstance(c, ast.Call) and isinstance(c.func, ast.Attribute)
-                                                       and c.func.attr == 'add_pulse' for c in ast.walk(n.stmt)))
-            allp = not l.iter.args and not l.iter.keywords
-            ck.ob('R-EXH.attach', '%s|all-pulses-loop#%d' % (rl.qual, n_loops), (mn, mx) == (1, 1) and allp,
-                  rl.loc(l), 'add_pulse once per pulse of pulse_iter() (ends included)')
-            n_loops += 1
+    bad_att = None
+    for p_ in rpaths:
+        if cond_value(p_, 'pulse is None') is not True:
+            continue
+        adds = [ev for ev in p_.events if ev[0] == 'call' and isinstance(ev[1], ast.Call) and
+                isinstance(ev[1].func, ast.Attribute) and ev[1].func.attr == 'add_pulse']
+        ent = [t_ for k_, t_ in p_.conds if k_ == 'loop' and 'pulse_iter(' in t_]
+        args_ = [norm(ev[1].args[0]) if ev[1].args else '?' for ev in adds]
+        through_iter = [a_ for a_ in args_ if _re.search(r'\.pulse_iter\(\)\[_k\d+\]$', a_)]
+        if not adds:
+            continue        # nothing attached on this path (empty collections)
+        n_loops += 1
+        if len(adds) != 1 or len(through_iter) != 1 or not (adds[0][3] or ent):
+            bad_att = bad_att or 'add_pulse(%s) on the path %s' % (args_, [c_ for c_ in p_.conds if isinstance(c_[1], bool)][:4])
+    ck.ob('R-EXH.attach', '%s|all-pulses-loop' % rl.qual, bad_att is None and n_loops >= 1, rl.loc(),
+          'add_pulse once per pulse of pulse_iter() (ends included)' if bad_att is None else bad_att)
     ck.floor('attach-all loops', n_loops, 1)
     pi = m.func('mininec.Geobj.pulse_iter')
     d = pi.defaults().get('yield_ends')
